@@ -366,7 +366,7 @@ func init() {
 			"offline: porcupine per-name register model, global injectivity; race detector on; distinct = (table kind, goroutines, shared-name count, contention seen)",
 		NumCases: func(tier string) int {
 			if tier == "thorough" {
-				return 20000
+				return 4000
 			}
 			return 400
 		},
